@@ -92,3 +92,10 @@ package msgpack
 //@   may_panic
 //@   requires (wf_deep val)
 //@   ensures[C16] marked_rejected: (=> (is_marked val) (not (= result nil.Any)))
+// Number encoding (C16): a known finite number leaves the encoder as exactly one token, and when that token
+// is an integer or a float64 it has exactly the number's value - the integer class is chosen only when
+// Int64 is exact, the float64 class only when Float64 is exact; everything else is sent as decimal text.
+//@   writes github.com/vmihailenco/msgpack/v5.Encoder enc
+//@   let E ($at<github.com/vmihailenco/msgpack/v5.Encoder> enc)
+//@   ensures[C16] number_exact: (=> (and (= result nil.Any) (not (is_marked val)) (kn val) (is_number_ty ty) (is_number_ty (vty val)) (= (num_i val) 0) (not (raw_eq val $G<cty.PositiveInfinity>)) (not (raw_eq val $G<cty.NegativeInfinity>))) (tok_exact (enc.last E) (num_r val)))
+//@   ensures[C16] null_token: (=> (and (= result nil.Any) (not (is_marked val)) (is_known val) (is_null val) (not (is_dyn_ty ty))) (= (enc.last E) tok_nil))
